@@ -77,7 +77,16 @@ class ThreadWorld(World):
         self.lib = load_library()
         self.keys = KeyRing(self.lib, header["key_seeds"])
         self.out = SimStdout(header.get("encoding", "utf-8"))
+        from seams import Patcher, SimFS
+        self.patch = Patcher()
+        self.fs = SimFS(run)
+        self.fs.install_open(self.patch, self.lib)
+        self.fs.install_stat(self.patch)
+        self.fs.install_rename(self.patch)
         self._build_pool()
+
+    def close(self):
+        self.patch.restore()
 
     # ------------------------------------------------------------------ shared pool and call catalogue
     def _build_pool(self):
@@ -119,7 +128,19 @@ class ThreadWorld(World):
                 hdr = bytes(rng.getrandbits(8) for _ in range(rng.choice([1, 6, 40])))
                 sig = keys.priv[i].sign(pgp_digest(refcanon(pa), hdr))
                 G["signatures"][keys.pub[i]] = {"other_headers": hdr.hex(), "signature": sig.hex()}
-        P = self.pool = {"pa": pa, "pb": pb, "Ea": Ea, "Eb": Eb, "Ex": Ex, "Ec": Ec, "Ej": Ej, "r1": r1, "r2": r2, "r2bad": r2bad,
+        Gb = S.wrap_as_signable(pb)
+        for i in (1, 2):
+            hdr = bytes(rng.getrandbits(8) for _ in range(rng.choice([2, 8, 33])))
+            sig = keys.priv[i].sign(pgp_digest(refcanon(pb), hdr))
+            Gb["signatures"][keys.pub[i]] = {"other_headers": hdr.hex(), "signature": sig.hex()}
+        repodoc = {"info": {"subdir": "noarch"}, "packages": {"a-1.0-0.tar.bz2": {"name": "a", "version": "1.0", "depends": []},
+                                                                "b-2.0-1.tar.bz2": {"name": "b", "version": "2.0", "size": 5}},
+                   "packages.conda": {"c-0.1-0.conda": {"name": "c", "version": "0.1"}}}
+        self.repodocs = {"noarch/repodata.json": repodoc,
+                         "linux-64/repodata.json": dict(repodoc, info={"subdir": "linux-64"},
+                                                        packages={"z-9-0.tar.bz2": {"name": "z", "version": "9", "build": "h1"}})}
+        P = self.pool = {"pa": pa, "pb": pb, "Gb": Gb, "k12": [keys.pub[1], keys.pub[2]], "kdup": [keys.pub[0], keys.pub[1], keys.pub[0]],
+                         "k10": [keys.pub[1], keys.pub[0]], "k21": [keys.pub[2], keys.pub[1]], "Ea": Ea, "Eb": Eb, "Ex": Ex, "Ec": Ec, "Ej": Ej, "r1": r1, "r2": r2, "r2bad": r2bad,
                          "km": km, "G": G, "k01": [keys.pub[0], keys.pub[1]], "k0": [keys.pub[0]], "k2": [keys.pub[2]],
                          "k012": list(keys.pub), "dels": r1["signed"]["delegations"]}
         k = keys
@@ -142,6 +163,14 @@ class ThreadWorld(World):
             ("checkformat_delegating_metadata", ("r1",), {}), ("checkformat_delegating_metadata", ("km",), {}),
             ("checkformat_delegating_metadata", ("Ea",), {}), ("checkformat_delegations", ("dels",), {}), ("is_signable", ("Ej",), {}),
             ("checkformat_list_of_hex_keys", ("k012",), {}), ("checkformat_signable", ("pa",), {}),
+            ("checkformat_list_of_hex_keys", ("kdup",), {}), ("checkformat_list_of_hex_keys", ("k10",), {}), ("checkformat_list_of_hex_keys", ("k21",), {}),
+            ("verify_signable", ("Gb", "k12", 2), {"gpg": True}), ("verify_signable", ("Gb", "k012", 3), {"gpg": True}),
+            ("verify_signable", ("G", "k12", 2), {"gpg": True}), ("verify_gpg_signature", ("ent:Gb:1", "=" + k.pub[1], "bytes:pb"), {}),
+            ("verify_gpg_signature", ("ent:Gb:1", "=" + k.pub[1], "bytes:pa"), {}), ("verify_gpg_signature", ("ent:Gb:2", "=" + k.pub[1], "bytes:pb"), {}),
+            ("build_root", ("k01", 2, "k2"), {}), ("build_root", ("kdup", 1, "k2"), {}), ("build_root", ("k21", 1, "kdup"), {}),
+            ("build_root", ("k10", 2, "k0"), {}),
+            ("sign_repo", ("noarch/repodata.json", 0), {}), ("sign_repo", ("linux-64/repodata.json", 0), {}),
+            ("sign_repo", ("noarch/repodata.json", 1), {}), ("sign_repo", ("linux-64/repodata.json", 2), {}),
         ]
         self.catalogue = C
 
@@ -163,11 +192,21 @@ class ThreadWorld(World):
             return P[a]
         return a
 
-    def _do(self, ci):
-        """Execute catalogue call ci; returns a comparable outcome."""
+    def _do(self, ci, me=0):
+        """Execute catalogue call ci (on behalf of thread `me`); returns a comparable outcome."""
         fn, args, kw = self.catalogue[ci]
         lib = self.lib
         try:
+            if fn == "build_root":
+                md = lib.metadata_construction.build_root_metadata(1, list(self.pool[args[0]]), args[1], list(self.pool[args[2]]), 1,
+                                                                   "2021-01-01T00:00:00Z", "2031-01-01T00:00:00Z")
+                return ("return", refcanon(md))
+            if fn == "sign_repo":
+                # each caller signs its own file; files in different directories share a base name
+                path = "w%d/%s" % (me, args[0])       # every caller has its own tree; base names coincide
+                self.fs.put(path, refcanon(self.repodocs[args[0]]))
+                lib.signing.sign_all_in_repodata(path, self.keys.seeds[args[1]].hex())
+                return ("return", self.fs.get(path))
             if fn == "sign_private":
                 # thread-private envelope around a *shared* payload object
                 E = {"signatures": {}, "signed": self.pool[args[0]]}
@@ -205,13 +244,19 @@ class ThreadWorld(World):
     def gen(self, rng):
         nthreads = rng.choice([1, 2, 2, 3, 4])
         nc = len(self.catalogue)
+        # half of the runs have a theme: most calls of every thread come from one family, so that the same code is
+        # likely to be on several threads' stacks at once
+        families = {"storage": ("sign_repo",), "gpg": ("verify_gpg_signature", "verify_root"), "builder": ("build_root", "checkformat_list_of_hex_keys"),
+                    "tally": ("verify_signable",), "deleg": ("verify_delegation",), "sign": ("sign_private", "wrap_as_signable", "canonserialize")}
+        theme = rng.choice(sorted(families)) if rng.random() < 0.5 else None
+        themed = [i for i, c in enumerate(self.catalogue) if theme and c[0] in families[theme]]
         # related calls are placed next to each other on purpose
         plans = []
         for _ in range(nthreads):
             n = rng.randint(3, 8) if nthreads > 1 else rng.randint(10, 40)
             plan = []
             while len(plan) < n:
-                ci = rng.randrange(nc)
+                ci = rng.choice(themed) if themed and rng.random() < 0.75 else rng.randrange(nc)
                 plan.append(ci)
                 if rng.random() < 0.3:
                     plan.append(ci)
@@ -280,7 +325,7 @@ class ThreadWorld(World):
             try:
                 sys.settrace(make_tracer(me))
                 for ci in plans[me]:
-                    results[me].append(self._do(ci))
+                    results[me].append(self._do(ci, me))
             except BaseException as e:  # noqa: BLE001
                 baton.error = e
             finally:
@@ -323,7 +368,12 @@ class ThreadWorld(World):
                 if got != refs[ci]:
                     fn, args, kw = self.catalogue[ci]
                     run.narrow = [narrow]
-                    run.violate(("C12",), "verdict-depends-on-history" if n == 1 else "verdict-depends-on-schedule",
+                    also = {"verify_signable": ("C01", "C02", "C09", "C06", "C10"), "verify_root": ("C03", "C04", "C06", "C10"),
+                            "verify_delegation": ("C05", "C06", "C11"), "verify_gpg_signature": ("C10", "C01"), "verify_signature": ("C01", "C09"),
+                            "canonserialize": ("C07",), "sign_private": ("C09",), "wrap_as_signable": ("C09",),
+                            "sign_repo": ("C11", "C08", "C18"), "build_root": ("C16",), "checkformat_list_of_hex_keys": ("C16",),
+                            "checkformat_delegating_metadata": ("C16",), "checkformat_delegations": ("C16",)}.get(fn, ())
+                    run.violate(("C12",) + also, "verdict-depends-on-history" if n == 1 else "verdict-depends-on-schedule",
                                 "%s%r %r gave %s, but %s when evaluated alone (thread %d of %d, %d switches, %d pre-emption points)"
                                 % (fn, args, kw, _o(got), _o(refs[ci]), me, n, len(baton.switches), baton.points),
                                 "verdict-differs:" + fn)
